@@ -634,8 +634,10 @@ namespace Dune
   template<typename T, class A>
   SLList<T,A>& SLList<T,A>::operator=(const SLList<T,A>& other)
   {
-    clear();
-    copyElements(other);
+    if(this != &other) {
+      clear();
+      copyElements(other);
+    }
     return *this;
   }
 
